@@ -481,6 +481,8 @@ def _run_instance(c, tree, mod, label, recv, rep, timeout_ms, lookup):
         interp.entry_state = s0.fork()
         a = (clo.d if isinstance(clo, V) else clo).node.args
         pos = [params[p.arg] for p in a.posonlyargs + a.args if p.arg in params]
+        if a.vararg is not None and a.vararg.arg in params and params[a.vararg.arg].kind == "tuple":
+            pos.extend(params[a.vararg.arg].d)         # the contract fixes the number of extra positional arguments
         kw = {p.arg: params[p.arg] for p in a.kwonlyargs if p.arg in params}
         if isinstance(clo, V):
             gen = interp.call(s0, clo, pos, kw)
